@@ -136,6 +136,13 @@ func New(ctx context.Context, params ...Parameter) (*Service, error) {
 func (s *Service) SetBeaconBlockRoot(slot phase0.Slot, root phase0.Root) {
 	s.beaconBlockRootsMu.Lock()
 	s.beaconBlockRoots[slot] = root
+	// Roots are only removed when an aggregation for their slot takes place, which is not the
+	// case for most slots; drop any that are too old to be aggregated.
+	for oldSlot := range s.beaconBlockRoots {
+		if oldSlot+2 < slot {
+			delete(s.beaconBlockRoots, oldSlot)
+		}
+	}
 	s.beaconBlockRootsMu.Unlock()
 }
 
